@@ -205,7 +205,8 @@ func (e *Exec) appendOp(st *State, args []Value, cc *ssa.CallCommon, pos token.P
 	e.assume(st, c.BVSle(newLen, capT))
 	// the result is s itself when nothing is appended
 	same := c.Eq(n, z)
-	res := &SliceV{Elem: s.Elem, Len: newLen, Cap: c.Ite(same, s.Cap, capT)}
+	// the capacity is that of s when the appended elements fit (no growth)
+	res := &SliceV{Elem: s.Elem, Len: newLen, Cap: c.Ite(c.Or(same, c.BVSle(newLen, s.Cap)), s.Cap, capT)}
 	for _, al := range s.Alts {
 		res.addAlt(c, c.And(same, al.Cond), al.Loc, al.Off)
 	}
